@@ -18,7 +18,7 @@ from util import J
 LEVEL = "proof"
 RULE = ("base points x of order 2..5 (quick 2..4) with minimal ranks (rounded random tensors) and mode sizes 2..4, tensors and operators; z, w of arbitrary ranks; "
         "f in {0.5||y-a||², <c,y>, sum(y⊙y⊙y⊙y)} on tensors and (every third case) operators incl. base points with r_k*M_k = r_{k+1}; plus direct integer cases for _delta2cores. Non-trivial: every case.")
-ASSUMPTIONS = ["QR returns orthonormal factors (gauge conditions); the projector identities are checked numerically on the real code (tolerance 1e-9 relative) — they follow from delta2cores_full + the gauge conditions",
+ASSUMPTIONS = ["QR returns orthonormal factors (gauge conditions; checked per run, 1e-9); given them the projector identities are Lean theorems (proj_selfadjoint, proj_idempotent, proj_orthogonal_projector) and are additionally checked numerically on the real code",
                "autograd for riemannian_gradient"]
 TOL = 1e-9
 
@@ -240,5 +240,5 @@ def run(res, rng, tier, known):
                                "model_outcome": "max core difference %.3g / shapes equal: %s" % (worst, ok),
                                "note": "model projection computed from the captured gauges differs from the real projection"}, no_input=True)
     return {"level": LEVEL, "rule": RULE, "assumptions": ASSUMPTIONS,
-            "not_by_theorem": ["idempotence / self-adjointness / residual orthogonality (numerical oracle; they follow from delta2cores_full and the gauge conditions)",
+            "not_by_theorem": ["that torch's QR returns orthonormal factors (hypothesis LeftOrthInit / RightOrthTail of proj_idempotent; checked numerically on the gauges of every run)",
                                "riemannian_gradient = P(grad f) (numerical oracle + autograd)"]}
